@@ -33,13 +33,24 @@ def _set(x, path, v):
     return x
 
 
-def candidates(case):
+def candidates(case, policy):
+    """reductions the property declares safe for its cases (`SHRINK` in the property module): names of lists whose
+    elements may be dropped (never below one element for the lists a call needs), whether DNA strings may be cut,
+    names of integers that may be moved towards zero.  A case that carries data *derived* from its other fields
+    (an expected product, a positional expectation) declares nothing and is not shrunk: a reduced case must still
+    be a case of the property, otherwise its "failure" would be the harness's, not the implementation's."""
+    lists = set(policy.get("lists", ()))
+    keep_one = set(policy.get("keep_one", ("mods", "cassettes", "entries", "history")))
+    ints = set(policy.get("ints", ()))
     for path, v in list(_paths(case)):
-        if isinstance(v, list) and len(v) > 0 and path and path[-1] not in ("parts",):
-            # drop one element (largest structures first)
+        name = path[-1] if path else None
+        if isinstance(v, list) and v and name in lists:
+            if len(v) == 1 and name in keep_one:
+                continue
             for i in range(len(v)):
                 yield _set(case, path, v[:i] + v[i + 1:])
-        elif isinstance(v, str) and len(v) > 3 and v.isalpha() and set(v.upper()) <= set("ACGTRYSWKMBDHVN"):
+        elif policy.get("strings") and isinstance(v, str) and len(v) > 3 and v.isalpha() \
+                and set(v.upper()) <= set("ACGTRYSWKMBDHVN") and name in policy.get("string_keys", ("word", "query")):
             n = len(v)
             for size in (n // 2, n // 4, 3, 1):
                 if size < 1:
@@ -48,19 +59,31 @@ def candidates(case):
                     yield _set(case, path, v[:start] + v[start + size:])
         elif isinstance(v, bool):
             continue
-        elif isinstance(v, int) and v not in (0, 1) and path and path[-1] in ("k", "k2", "m", "rot", "rv", "a", "b", "pos"):
+        elif isinstance(v, int) and v not in (0, 1) and name in ints:
             yield _set(case, path, v // 2)
             yield _set(case, path, 0)
 
 
+def kind_of(what):
+    """the kind of a failure: its message with numbers and sequence / identifier literals masked"""
+    import re
+    s = re.sub(r"'[^']*'|\"[^\"]*\"", "'…'", what)
+    s = re.sub(r"-?\d+", "#", s)
+    s = re.sub(r"\b[ACGTNacgtn]{2,}\b", "…", s)
+    return s[:160]
+
+
 def shrink(prop, ctx_factory, case, what, budget_s=15.0, max_tries=400):
-    kind = what[:25]
+    policy = getattr(prop, "SHRINK", None)
+    if not policy:
+        return case, what, 0
+    kind = kind_of(what)
     t0 = time.time()
     tries = 0
     improved = True
     while improved and time.time() - t0 < budget_s and tries < max_tries:
         improved = False
-        for cand in candidates(case):
+        for cand in candidates(case, policy):
             if time.time() - t0 > budget_s or tries >= max_tries:
                 break
             tries += 1
@@ -69,7 +92,7 @@ def shrink(prop, ctx_factory, case, what, budget_s=15.0, max_tries=400):
                 prop.check_case(c2, copy.deepcopy(cand))
             except Exception:  # noqa  (a malformed candidate is simply not a reduction)
                 continue
-            hit = [f for f in c2.failures if f["what"][:25] == kind]
+            hit = [f for f in c2.failures if kind_of(f["what"]) == kind]
             if hit:
                 case, what = cand, hit[0]["what"]
                 improved = True
